@@ -67,8 +67,12 @@ type genWorld struct {
 	contStep  time.Duration // directed scenarios: block time step of the lock-step continuation (0 = one second)
 	optOut    map[int]bool  // operators that started an opt-out
 	directed  string
-	avs2      string       // a second, non-chain AVS (registered lazily) that operators opt into and out of
-	inAVS2    map[int]bool // operators currently opted into avs2
+	avs2      string        // a second, non-chain AVS (registered lazily) that operators opt into and out of
+	inAVS2    map[int]bool  // operators currently opted into avs2
+	asset     int           // index (Cfg.Assets) of the asset deposit / withdraw / delegate act on
+	nextOp    int           // operators registered during the history (dom_genesis_boundary.go)
+	selfUnd   map[int]int64 // what a genesis operator undelegated of its own genesis stake
+	lastOp    operatorView  // the operator module as read before the last export
 }
 
 func (w *genWorld) op(op, obs string) {
@@ -81,7 +85,9 @@ func (w *genWorld) note(f string, a ...interface{}) {
 	w.hist = append(w.hist, fmt.Sprintf("# h=%d ", w.c.Header.Height)+fmt.Sprintf(f, a...))
 }
 
-func (w *genWorld) assetAddr() []byte { return common.HexToAddress(w.c.Cfg.Assets[0].Addr).Bytes() }
+func (w *genWorld) assetAddr() []byte {
+	return common.HexToAddress(w.c.Cfg.Assets[w.asset].Addr).Bytes()
+}
 
 func genErrClass(err error) string {
 	if err == nil {
@@ -95,7 +101,7 @@ func genErrClass(err error) string {
 
 func (w *genWorld) deposit(si int, amt int64) error {
 	c := w.c
-	w.note("deposit staker=%d amount=%d", si, amt)
+	w.note("deposit staker=%d asset=%d amount=%d", si, w.asset, amt)
 	return c.CachedDo(func(ctx sdk.Context) error {
 		return c.App.AssetsKeeper.PerformDepositOrWithdraw(ctx, &assetskeeper.DepositWithdrawParams{
 			ClientChainLzID: c.LzID, Action: assetstypes.DepositLST, AssetsAddress: w.assetAddr(),
@@ -106,7 +112,7 @@ func (w *genWorld) deposit(si int, amt int64) error {
 
 func (w *genWorld) withdraw(si int, amt int64) error {
 	c := w.c
-	w.note("withdraw staker=%d amount=%d", si, amt)
+	w.note("withdraw staker=%d asset=%d amount=%d", si, w.asset, amt)
 	return c.CachedDo(func(ctx sdk.Context) error {
 		return c.App.AssetsKeeper.PerformDepositOrWithdraw(ctx, &assetskeeper.DepositWithdrawParams{
 			ClientChainLzID: c.LzID, Action: assetstypes.WithdrawLST, AssetsAddress: w.assetAddr(),
@@ -117,7 +123,7 @@ func (w *genWorld) withdraw(si int, amt int64) error {
 
 func (w *genWorld) delegate(si, oi int, amt int64, undelegate bool) error {
 	c := w.c
-	w.note("delegate staker=%d operator=%d amount=%d undelegate=%v", si, oi, amt, undelegate)
+	w.note("delegate staker=%d operator=%d asset=%d amount=%d undelegate=%v", si, oi, w.asset, amt, undelegate)
 	w.nonce++
 	p := &delegationtypes.DelegationOrUndelegationParams{
 		ClientChainID: c.LzID, Action: assetstypes.DelegateTo, AssetsAddress: w.assetAddr(),
@@ -347,6 +353,8 @@ func importChain(orig *Chain, appState json.RawMessage, height int64) (c2 *Chain
 	post.exports = exportModulesCtx(c2, ictx)
 	post.view = viewCore(c2, ictx)
 	post.assets = viewAssets(c2, ictx)
+	post.operator = viewOperator(c2, ictx)
+	post.params = viewParams(c2, ictx)
 	post.dumps = map[string][]string{}
 	for _, m := range c18Modules {
 		post.dumps[m] = StoreDumpCtx(c2, ictx, m)
@@ -357,10 +365,12 @@ func importChain(orig *Chain, appState json.RawMessage, height int64) (c2 *Chain
 }
 
 type postInit struct {
-	view    coreView
-	assets  assetsView
-	exports map[string]string
-	dumps   map[string][]string
+	view     coreView
+	assets   assetsView
+	operator operatorView
+	params   paramsView
+	exports  map[string]string
+	dumps    map[string][]string
 }
 
 func tmprotoHeaderAt(orig *Chain, h int64) tmproto.Header {
@@ -417,6 +427,8 @@ type roundTripResult struct {
 	c2          *Chain
 	post        coreView
 	postAssets  assetsView
+	postOp      operatorView
+	postParams  paramsView
 }
 
 // describeKey renders a differing store key of a module for the report: prefix byte + length
@@ -463,7 +475,7 @@ func (w *genWorld) roundTripWith(contBlocks int, directed bool) (res roundTripRe
 		return
 	}
 	for _, m := range c18Modules {
-		if err := validateModule(c, m, mods[m]); err != nil {
+		if err := validateModuleSafe(c, m, mods[m]); err != nil {
 			res.validateErr[m] = err.Error()
 		}
 	}
@@ -475,6 +487,8 @@ func (w *genWorld) roundTripWith(contBlocks int, directed bool) (res roundTripRe
 	res.c2 = c2
 	res.post = post.view
 	res.postAssets = post.assets
+	res.postOp = post.operator
+	res.postParams = post.params
 	// second export (state right after InitChain) against the first one, module by module
 	for _, m := range c18Modules {
 		if a, b := canonJSON(mods[m]), post.exports[m]; a != b {
